@@ -760,7 +760,13 @@ class UsersDictionary(utils.IterableMap):
         """Returns the user ID of a given name or hostmask."""
         if ircutils.isUserHostmask(s):
             try:
-                return self._hostmaskCache[s]
+                id = self._hostmaskCache[s]
+                # The cache remembers who matched, not whether they still do
+                # (a login may have timed out since): check again.
+                if not self.users[id].checkHostmask(s):
+                    self.invalidateCache(hostmask=s)
+                    raise KeyError(s)
+                return id
             except KeyError:
                 ids = {}
                 for (id, user) in self.users.items():
@@ -780,6 +786,9 @@ class UsersDictionary(utils.IterableMap):
                 else:
                     log.error('Multiple matches found in user database.  '
                               'Removing the offending hostmasks.')
+                    # Other cached hostmasks may have matched through the
+                    # hostmasks removed here.
+                    self._hostmaskCache.clear()
                     for (id, hostmask) in ids.items():
                         log.error('Removing %q from user %s.', hostmask, id)
                         self.users[id].removeHostmask(hostmask)
@@ -875,6 +884,9 @@ class UsersDictionary(utils.IterableMap):
                 for otherHostmask in u.hostmasks:
                     if ircutils.hostmaskPatternEqual(hostmask, otherHostmask):
                         raise DuplicateHostmask(u.name, hostmask)
+        # Changing one user can change who is the unique match of any cached
+        # hostmask (this user may now match it as well).
+        self._hostmaskCache.clear()
         self.invalidateCache(user.id)
         self.users[user.id] = user
         if flush:
@@ -883,13 +895,8 @@ class UsersDictionary(utils.IterableMap):
     def delUser(self, id):
         """Removes a user from the database."""
         del self.users[id]
-        if id in self._nameCache:
-            del self._nameCache[self._nameCache[id]]
-            del self._nameCache[id]
-        if id in self._hostmaskCache:
-            for hostmask in list(self._hostmaskCache[id]):
-                del self._hostmaskCache[hostmask]
-            del self._hostmaskCache[id]
+        self._hostmaskCache.clear()
+        self.invalidateCache(id)
         self.flush()
 
     def newUser(self):
